@@ -1,6 +1,318 @@
 import Fabio.Driver.Proto
-namespace Fabio.Driver.C17
-open Lean Fabio.Driver
+import Fabio.Model.C17
+/-!
+Driver for C17. One case = one scripted upstream response served through the real `NewGzipHandler`
+(`got`) and through the bare scripted handler (`base`), either into a recorder or over a real server.
 
-def streams : List (String × Handler) := []
+* `agree`: the model's prediction (compressed?, status, outgoing header map, decoded body) equals what the
+  implementation produced. The compressor instance used here is the identity framing (`decode = id`), so the
+  model's body is the decoded body; the real bytes were gunzipped on the Go side.
+* `spec`: the property itself, evaluated on the implementation's output against the bare run and the request:
+  status preserved; if anything was changed (body or Content-Encoding) then the client accepts gzip in the
+  RFC 9110 sense (listed with a non-zero weight — NOT the coded substring/element test), the type matches, the
+  upstream had no encoding, the response says `Content-Encoding: gzip`, has no Content-Length other than the
+  length of what is on the wire, gunzips to exactly the bare body, and keeps every upstream header; otherwise
+  headers and body are those of the bare run (plus the `Vary` line).
+-/
+namespace Fabio.Driver.C17
+open Lean Fabio.Driver Fabio.Model.C17
+
+/-! JSON helpers -/
+
+def hexVal (c : Char) : Option Nat :=
+  if '0' ≤ c ∧ c ≤ '9' then some (c.toNat - 48)
+  else if 'a' ≤ c ∧ c ≤ 'f' then some (c.toNat - 87)
+  else if 'A' ≤ c ∧ c ≤ 'F' then some (c.toNat - 55) else none
+
+def unhex : List Char → Option Bytes
+  | [] => some []
+  | [_] => none
+  | a :: b :: r => do
+    let x ← hexVal a
+    let y ← hexVal b
+    let t ← unhex r
+    pure (UInt8.ofNat (x * 16 + y) :: t)
+
+def hexDigit (n : Nat) : Char := if n < 10 then Char.ofNat (48 + n) else Char.ofNat (87 + n)
+def tohex (b : Bytes) : String := String.ofList (b.flatMap (fun x => [hexDigit (x.toNat / 16), hexDigit (x.toNat % 16)]))
+
+def pairs (j : Json) : Except String (List (String × String)) := do
+  let a ← j.getArr?
+  a.toList.mapM (fun p => do
+    let q ← p.getArr?
+    match q.toList with
+    | [k, v] => pure ((← k.getStr?), (← v.getStr?))
+    | _ => throw "pair expected")
+
+structure Blob where
+  len : Nat
+  sha : String
+  hex : String
+  big : Bool
+deriving BEq
+
+def blobOf (j : Json) : Except String Blob := do
+  pure { len := ← j.getObjValAs? Nat "len", sha := ← j.getObjValAs? String "sha",
+         hex := ← j.getObjValAs? String "hex", big := ← j.getObjValAs? Bool "big" }
+
+structure Resp where
+  status : Nat
+  hdr : List (String × String)
+  body : Blob
+  gunzip : Option (Bool × Blob)
+
+def respOf (j : Json) : Except String Resp := do
+  let g := (j.getObjVal? "gunzip").toOption.getD Json.null
+  let gz ← if g.isNull then pure none else do
+    let ok ← g.getObjValAs? Bool "ok"
+    pure (some (ok, ← blobOf g))
+  pure { status := ← j.getObjValAs? Nat "status", hdr := ← pairs (← j.getObjVal? "hdr"),
+         body := ← blobOf (← j.getObjVal? "body"), gunzip := gz }
+
+/-- a written chunk: its bytes when shipped in hex, otherwise only its length. -/
+structure Chunk where
+  bytes : Option Bytes
+  len : Nat
+
+inductive SOp where
+  | h (o : Op)
+  | wh (c : Nat)
+  | w (c : Chunk)
+
+def opOf (j : Json) : Except String SOp := do
+  let op ← j.getObjValAs? String "op"
+  let k := (j.getObjValAs? String "k").toOption.getD ""
+  let v := (j.getObjValAs? String "v").toOption.getD ""
+  match op with
+  | "set" => pure (.h (.set k v))
+  | "add" => pure (.h (.add k v))
+  | "del" => pure (.h (.del k))
+  | "wh" => pure (.wh ((j.getObjValAs? Nat "code").toOption.getD 0))
+  | "w" =>
+    let hx := (j.getObjValAs? String "hex").toOption.getD ""
+    let n := (j.getObjValAs? Nat "len").toOption.getD 0
+    if hx != "" then
+      match unhex hx.toList with
+      | some b => pure (.w { bytes := some b, len := b.length })
+      | none => throw "bad hex"
+    else if n == 0 then pure (.w { bytes := some [], len := 0 })
+    else pure (.w { bytes := none, len := n })
+  | _ => throw s!"op {op}"
+
+structure Case where
+  layer : String
+  method : String
+  req : List (String × String)
+  ops : List SOp
+  got : Resp
+  base : Resp
+  sniff : String
+  matchTab : List (String × String)
+  up : Blob
+  nw : Nat
+
+def caseOf (inp impl : Json) : Except String Case := do
+  let orc ← impl.getObjVal? "oracle"
+  let opsJ ← (← inp.getObjVal? "ops").getArr? <|> pure #[]
+  pure { layer := ← inp.getObjValAs? String "layer", method := ← inp.getObjValAs? String "method",
+         req := ← pairs (← inp.getObjVal? "req"), ops := ← opsJ.toList.mapM opOf,
+         got := ← respOf (← impl.getObjVal? "got"), base := ← respOf (← impl.getObjVal? "base"),
+         sniff := ← orc.getObjValAs? String "sniff", matchTab := ← pairs (← orc.getObjVal? "match"),
+         up := ← blobOf (← orc.getObjVal? "up"), nw := ← orc.getObjValAs? Nat "nw" }
+
+/-! the model instance -/
+
+/-- identity framing: what is "emitted" is the input, `decode` is the identity. -/
+def idComp : Comp Unit := { reset := id, write := fun z b => (z, b), close := fun z => (z, []), decode := some }
+
+def cfgOf (c : Case) : Cfg Unit :=
+  { typeOk := fun ct => (c.matchTab.lookup ct) == some "1", sniff := fun _ => c.sniff, comp := idComp, fresh := () }
+
+def modelOps (c : Case) : List Op := c.ops.map (fun
+  | .h o => o
+  | .wh k => .wh k
+  | .w ch => .w (ch.bytes.getD []))
+
+def hasOpaque (c : Case) : Bool := c.ops.any (fun | .w ch => ch.bytes.isNone | _ => false)
+def totalLen (c : Case) : Nat := (c.ops.map (fun | .w ch => ch.len | _ => 0)).sum
+
+def reqHdr (req : List (String × String)) : Hdr := req.foldl (fun h p => hadd h p.1 p.2) []
+
+def insertKV (p : String × List String) : List (String × List String) → List (String × List String)
+  | [] => [p]
+  | q :: r => if p.1 < q.1 then p :: q :: r else q :: insertKV p r
+def flatHdr (h : Hdr) : List (String × String) :=
+  (h.foldl (fun acc p => insertKV p acc) []).flatMap (fun p => p.2.map (fun v => (p.1, v)))
+/-- a map entry with no values is not on the wire -/
+def pairsJson (l : List (String × String)) : Json := Json.arr (l.map (fun p => Json.arr #[Json.str p.1, Json.str p.2])).toArray
+
+def valuesOf (h : List (String × String)) (k : String) : List String := (h.filter (·.1 == k)).map (·.2)
+def without (h : List (String × String)) (ks : List String) : List (String × String) := h.filter (fun p => !ks.contains p.1)
+
+def bodiless (c : Case) (status : Nat) : Bool := c.layer == "srv" && (c.method == "HEAD" || status == 204 || status == 304)
+
+/-- does the blob hold the bytes the scripted handler wrote (or nothing, for a bodiless response)? -/
+def blobIs (c : Case) (b : Blob) (expected : Bytes) (empty : Bool) : Bool :=
+  if empty then b.len == 0
+  else if hasOpaque c then b.len == totalLen c && b.sha == c.up.sha
+  else b.len == expected.length && (if b.big then b.sha == c.up.sha else b.hex == tohex expected)
+
+def sameBlob (a b : Blob) : Bool := a.len == b.len && a.sha == b.sha && a.hex == b.hex
+
+/-! the RFC 9110 reading of "the client accepts gzip" (independent of the coded test) -/
+
+def qOf (params : List Char) : Option (List Char) :=
+  ((splitOn ';' params).filterMap (fun p =>
+    let n := trim (cut '=' p).1
+    if n == ['q'] || n == ['Q'] then some (trim (cut '=' p).2) else none)).head?
+
+/-- weight is non-zero: some digit other than `0` occurs (absent weight = 1). -/
+def positive (params : List Char) : Bool :=
+  match qOf params with
+  | none => true
+  | some q => q.any (fun ch => '1' ≤ ch && ch ≤ '9')
+
+def rfcAccepts (req : List (String × String)) : Bool :=
+  let vals := (req.filter (fun p => lowerL p.1.toList == "accept-encoding".toList)).map (·.2)
+  let elems := vals.flatMap (fun v => splitOn ',' v.toList)
+  let named (n : String) := elems.filter (fun e => lowerL (trim (cut ';' e).1) == n.toList)
+  match named "gzip" ++ named "x-gzip" with
+  | e :: _ => positive (cut ';' e).2
+  | [] => match named "*" with
+    | e :: _ => positive (cut ';' e).2
+    | [] => false
+
+/-! evaluation of one case -/
+
+structure Eval where
+  model : Json
+  agree : Bool
+  spec : Bool
+  nontrivial : Bool
+  tag : String
+
+def evalCase (c : Case) : Eval :=
+  let C := cfgOf c
+  let ops := modelOps c
+  let head := c.method == "HEAD"
+  let r := serve C head (reqHdr c.req) [] [] ops
+  let mh := flatHdr r.obs.hdr
+  let noBody := bodiless c r.obs.status
+  let model := Json.mkObj [("compressed", r.compressed), ("status", r.obs.status), ("hdr", pairsJson mh),
+    ("body", if hasOpaque c then Json.null else Json.str (tohex (if noBody then [] else r.obs.body)))]
+  -- agreement
+  let got := c.got
+  let base := c.base
+  let bodyAgree :=
+    if r.compressed then
+      (match got.gunzip with
+       | some (true, b) => blobIs c b r.obs.body false
+       | some (false, _) => noBody && got.body.len == 0
+       | none => false)
+    else blobIs c got.body r.obs.body noBody
+  -- specification on the implementation's own output
+  let ce (x : Resp) := valuesOf x.hdr hContentEncoding
+  let ct (x : Resp) := valuesOf x.hdr hContentType
+  let changed := !(sameBlob got.body base.body) || ce got != ce base
+  let statusOk := got.status == base.status
+  let varyOk := valuesOf got.hdr hVary == valuesOf base.hdr hVary ||
+                valuesOf got.hdr hVary == hAcceptEncoding :: valuesOf base.hdr hVary
+  let dec := decision C [] ops   -- upstream header map at the first WriteHeader/Write (spec's own fold, no Vary)
+  let upH : List (String × String) := match dec with
+    | some (h, _) => flatHdr h
+    | none => flatHdr (hops ops [])
+  -- the upstream's own header map at that moment (before any sniffed Content-Type is filled in)
+  let upRaw : List (String × String) :=
+    flatHdr (hops (ops.takeWhile (fun | .wh _ => false | .w _ => false | _ => true)) [])
+  let typeOk := match dec with
+    | some (h, _) => C.typeOk (hget h hContentType)
+    | none => false
+  let upEncoded := valuesOf upH hContentEncoding != [] && valuesOf upH hContentEncoding != [""]
+  let implicit := match c.ops.find? (fun | .h _ => false | _ => true) with
+    | some (.w _) => true
+    | _ => false
+  let engaged := acceptsGzip (reqHdr c.req) && !head
+  let hdrAgree :=
+    if c.layer == "rec" then got.hdr == mh
+    else
+      let loose := [hContentLength, hContentType, "Connection"]
+      without got.hdr loose == without mh loose &&
+        (r.obs.status == 204 || r.obs.status == 304 ||
+          -- the Content-Type line is the handler's (not net/http's own sniffing) when the upstream set one or the wrapper is engaged
+          ((valuesOf mh hContentType == [] || !(engaged || valuesOf upRaw hContentType != []) ||
+              valuesOf mh hContentType == valuesOf got.hdr hContentType) &&
+           (valuesOf mh hContentLength == [] || valuesOf mh hContentLength == valuesOf got.hdr hContentLength)))
+  let agree := got.status == r.obs.status && hdrAgree && bodyAgree
+  let (spec, ftag) : Bool × String :=
+    if !statusOk then (false, "status-changed")
+    else if !changed then
+      let rest := [hVary, hContentType]
+      if without got.hdr rest != without base.hdr rest then (false, "header-changed")
+      else if !varyOk then (false, "vary-changed")
+      else if ct got != ct base then (false, "sniffed-type-differs")
+      else (true, "")
+    else
+      if !(rfcAccepts c.req) then (false, "compressed-not-accepted")
+      else if !typeOk then (false, "compressed-type-mismatch")
+      else if upEncoded then (false, "compressed-already-encoded")
+      else if ce got != [encGzip] then (false, "changed-not-labelled")
+      else if valuesOf got.hdr hContentLength != [] &&
+              (c.layer == "rec" || valuesOf got.hdr hContentLength != [toString got.body.len]) then (false, "stale-content-length")
+      else match got.gunzip with
+        | some (true, b) =>
+          if !(sameBlob b base.body) then (false, "roundtrip-mismatch")
+          else
+            let keep := without upRaw [hContentLength, hContentEncoding, hVary]
+            let keepT := if bodiless c got.status then without keep [hContentType] else keep
+            if !(keepT.all (fun p => got.hdr.contains p)) || without got.hdr [hContentLength, hContentEncoding, hVary, hContentType] != without keep [hContentType] then (false, "header-changed")
+            else if !varyOk then (false, "vary-changed")
+            else if ct got != [] && ct base != [] && ct got != ct base then (false, "sniffed-type-differs")
+            else (true, "")
+        | _ => (false, if bodiless c got.status then "bodiless-labelled-gzip" else "labelled-but-undecodable")
+  let aeAll := String.intercalate "," ((c.req.filter (fun p => lowerL p.1.toList == "accept-encoding".toList)).map (·.2))
+  let tag :=
+    if ftag != "" then ftag
+    else if r.compressed then (if implicit then "gzip/implicit" else "gzip/explicit")
+    else if !(acceptsGzip (reqHdr c.req)) then (if containsL aeAll.toList encGzip.toList then "plain/refused" else "plain/no-accept")
+    else if head then "plain/head"
+    else match dec with
+      | none => "plain/no-write"
+      | some (h, code) =>
+        if !(bodyAllowedForStatus code) then "plain/bodiless-status"
+        else if hget h hContentEncoding != "" then "plain/encoded"
+        else "plain/type"
+  { model := model, agree := agree, spec := spec,
+    nontrivial := containsL aeAll.toList encGzip.toList && c.nw ≥ 1 && c.up.len ≥ 1, tag := tag }
+
+def respH : Handler := fun inp impl => do
+  match impl.getObjVal? "got" with
+  | .error _ => -- harness_error / panic: the real code crashed or the input is nonsense
+    let isPanic := (impl.getObjVal? "panic").toOption.isSome
+    return ({ model := Json.null, agree := !isPanic, spec := !isPanic, nontrivial := false,
+              tag := if isPanic then "panic" else "rejected-input" } : Verdict).toJson
+  | .ok _ =>
+    let c ← caseOf inp impl
+    let e := evalCase c
+    return ({ model := e.model, agree := e.agree, spec := e.spec, nontrivial := e.nontrivial, tag := e.tag } : Verdict).toJson
+
+def poolH : Handler := fun inp impl => do
+  match impl.getArr? with
+  | .error _ =>
+    let isPanic := (impl.getObjVal? "panic").toOption.isSome
+    return ({ model := Json.null, agree := !isPanic, spec := !isPanic, nontrivial := false,
+              tag := if isPanic then "panic" else "rejected-input" } : Verdict).toJson
+  | .ok outs =>
+    let reqs ← (← inp.getObjVal? "reqs").getArr?
+    if reqs.size != outs.size then throw "pool: size mismatch"
+    let es ← (reqs.toList.zip outs.toList).mapM (fun (i, o) => do pure (evalCase (← caseOf i o)))
+    let bad := es.find? (fun e => !e.spec || !e.agree)
+    let nz := (es.filter (fun e => e.tag.startsWith "gzip/")).length
+    return ({ model := Json.arr (es.map (·.model)).toArray, agree := es.all (·.agree), spec := es.all (·.spec),
+              nontrivial := nz ≥ 2 && es.length ≥ 8,
+              tag := match bad with
+                | some e => "pool/" ++ e.tag
+                | none => "pool" } : Verdict).toJson
+
+def streams : List (String × Handler) :=
+  [("c17.resp", respH), ("c17.resp.wide", respH), ("c17.pool", poolH)]
 end Fabio.Driver.C17
